@@ -114,7 +114,7 @@ func c02Run(c c02Case) error {
 	if err != nil {
 		return err
 	}
-	cell, err := enumCell(r, ref, nil, ev.Pick(20000, 200000)+10)
+	cell, err := enumCell(r, ref, ev.Pick(20000, 200000)+10)
 	if err != nil {
 		return err
 	}
@@ -157,7 +157,7 @@ func c02Run(c c02Case) error {
 				}
 				return fmt.Errorf("sibling recipe %+v after %+v: %w", sib, sp, err)
 			}
-			sc, err := enumCell(sr, sref, nil, 5010)
+			sc, err := enumCell(sr, sref, 5010)
 			if err == nil {
 				err = checkCellUniform(sib, sc, sv)
 			}
@@ -173,39 +173,26 @@ func c02Run(c c02Case) error {
 			}
 		}
 	}
-	// the same cell behind r rejected candidates; and the end of the budget
-	if cell.NRejected > 0 {
-		for _, np := range c.Prefixes {
-			if np >= spg.MaxTrials {
-				continue
+	// the same attempts behind r rejected ones; and the end of the budget
+	if cell.NRejected > 0 && len(cell.Rejected) > 0 {
+		if cell.All != nil {
+			for _, np := range c.Prefixes {
+				if np >= spg.MaxTrials {
+					continue
+				}
+				var rej [][]uint32
+				for i := 0; i < np; i++ {
+					rej = append(rej, cell.Rejected[(i+int(c.Key%7))%len(cell.Rejected)])
+				}
+				if _, err := chainCheck(r, cell, rej); err != nil {
+					return fmt.Errorf("behind %d rejected attempts: %w", np, err)
+				}
+				ev.Class(fmt.Sprintf("cell_behind_%d_rejections", np))
 			}
-			var prefix []uint32
-			for i := 0; i < np; i++ {
-				prefix = append(prefix, cell.Rejected[(i+int(c.Key%7))%len(cell.Rejected)]...)
-			}
-			pc, err := enumCell(r, ref, prefix, ev.Pick(20000, 200000)+10)
-			if err != nil {
-				return fmt.Errorf("behind %d rejected candidates: %w", np, err)
-			}
-			if err := checkCellUniform(sp, pc, valid); err != nil {
-				return fmt.Errorf("behind %d rejected candidates: %w", np, err)
-			}
-			ev.Class(fmt.Sprintf("cell_behind_%d_rejections", np))
 		}
-		// MaxTrials rejected candidates: an error, and not one draw more
-		var all []uint32
-		for i := 0; i < spg.MaxTrials; i++ {
-			all = append(all, cell.Rejected[i%len(cell.Rejected)]...)
-		}
-		o := callForced(all, func(k int, n uint32) uint32 { return ref.Choices[k%ref.D] }, 9, r.Generate)
-		if o.Panic != nil {
-			return fmt.Errorf("panic when every attempt fails: %v", o.Panic)
-		}
-		if o.Pw != nil || o.Err == nil {
-			return fmt.Errorf("after %d rejected candidates Generate returned a password (%d draws)", spg.MaxTrials, len(o.S.Draws))
-		}
-		if len(o.S.Draws) != spg.MaxTrials*ref.D {
-			return fmt.Errorf("with every attempt failing Generate made %d draws = %.2f candidates, permitted %d", len(o.S.Draws), float64(len(o.S.Draws))/float64(ref.D), spg.MaxTrials)
+		// MaxTrials rejected attempts: an error, and not one draw more
+		if err := budgetCheck(r, ref, cell.Rejected); err != nil {
+			return err
 		}
 		ev.Class("budget_exhaustion_checked")
 	}
@@ -244,7 +231,7 @@ func c02Gen(t *rapid.T) c02Case {
 		sz *= u
 	}
 	if sz <= 2500 {
-		c.Prefixes = []int{1, rapid.SampledFrom([]int{2, 7, 50, 199}).Draw(t, "prefix")}
+		c.Prefixes = []int{1, rapid.SampledFrom([]int{2, 7, 50, 198, 199}).Draw(t, "prefix")}
 	}
 	return c
 }
@@ -256,28 +243,6 @@ func TestC02(t *testing.T) {
 	ev.Check(t, "c02_uniform", ev.N(320, 3200), c02Gen, c02Run)
 	// "no other string is ever returned": long recipes with an invalid first candidate
 	ev.Check(t, "c02_long_invalid_first", ev.N(800, 16000), longInvalidFirstGen, longInvalidFirstRun)
-	// long passwords / full-size alphabets: every draw matters (local injectivity)
-	ev.Check(t, "c02_long_injective", ev.N(48, 480), func(t *rapid.T) supChar {
-		sp := gen.CharSpec(t, gen.CharOpts{MaxLen: 150, MinLen: 12, MaxReq: 2, NoHiBits: true})
-		return supChar{Spec: sp, Key: rapid.Uint64().Draw(t, "key")}
-	}, func(c supChar) error {
-		if rf, b := c.Spec.Feasibility(spg.MaxTrials, spg.MaxFailRate); rf || b {
-			return &ev.Skip{Why: "refused"}
-		}
-		r := toRecipe(c.Spec)
-		// context: an accepted first candidate (no retries in the base run)
-		ref, err := findRef(r, c.Key, 400)
-		if err != nil {
-			return err
-		}
-		n, err := localInjectivity(r.Generate, c.Key, ref.D, 0, 128, ref.Choices)
-		ev.Leaves(int64(n))
-		if err == nil {
-			ev.Class("long_injective_checked")
-			ev.NonTrivial(fmt.Sprintf("inj|%+v", c.Spec))
-		}
-		return err
-	})
 	// long passwords / full-size alphabets: support check (every character at every position)
 	ev.Check(t, "c02_long_support", ev.N(32, 320), func(t *rapid.T) supChar {
 		sp := gen.CharSpec(t, gen.CharOpts{MaxLen: 120, MinLen: 20, MaxReq: 2, NoHiBits: true})
